@@ -94,7 +94,7 @@ def check_fallback(ctx):
                    'extension nor a registered check handles the kind'
                    if ok else 'the generic class is consulted before the '
                    'specific handlers')
-    ctx.floor('C05.FALLBACK', n, 3, 'registry constructions')
+    ctx.floor('C05.FALLBACK', n, 1, 'registry constructions')
     return gq
 
 
